@@ -4,7 +4,8 @@ C22 — JWT bearer tokens are verified and revocable (OAuth resource-server mode
 Executable model of
   internal/server/oauth/oauth.go   ValidateJWT            (result cache + revocation check)
   internal/server/oauth/jwt.go     parseAndValidateJWT, selectVerificationKey
-  internal/server/oauth/jwks.go    refreshJWKS (key filtering), keyByID / findKeyByID / allKeys
+  internal/server/oauth/jwks.go    refreshJWKS (key filtering), keyByID / findKeyByID / allKeys,
+                                   jwksCache (keys, fetchedAt, ttl), missRefresh (unknown-kid cooldown)
   internal/language/tokens/blacklist.go   Blacklist, Delete, Flush, IsIDBlacklisted (+ BlacklistCache)
   internal/server/oauth/authserver/revoke.go   RevokeHandler tail: `if jti != "" { tokens.Blacklist(jti) }`
 
@@ -19,6 +20,9 @@ External primitives enter as data, never as axioms:
     header's algorithm (`none` = under no key).
   * strings (kid, jti, user names) are interned as `Nat`; `0` is the empty string.
   * the clock is a `Nat` (seconds); all comparisons are those of the Go code at whole seconds.
+  * the identity provider is part of the state: `St.pub` is the JWKS document it serves NOW; the operation
+    `setKeys` replaces it (keys are published / withdrawn / rotated while the server runs).  The provider is
+    reachable: refreshJWKS fails only when the document has no usable signature key (ErrJWKSNoKeys).
 
 Core Lean only.
 -/
@@ -66,9 +70,9 @@ def findKeyByID : List PubKey → Nat → Option Nat
   | [], _ => none
   | e :: es, kid => if e.kid = kid then some e.id else findKeyByID es kid
 
-/-- selectVerificationKey (+ keyByID / allKeys).  With a fixed published key set and a reachable
-    provider the JWKS cache, its TTL refresh and the unknown-kid cooldown do not change the answer:
-    every path ends in a lookup in the usable published keys. -/
+/-- SPECIFICATION of key selection over one key set (no cache): what selectVerificationKey answers when
+    the key set it looks at is `keys`.  The code itself is `selectKeyS` below (JWKS cache, TTL, cooldown);
+    `Props.selectKeyS_fixed` proves that the two agree as long as the provider never changes its document. -/
 def selectKey (keys : List PubKey) (alg : AlgFam) (kid : Nat) : Option Nat :=
   if alg = .other then none                       -- ErrJWTSigningMethod
   else if kid ≠ 0 then findKeyByID keys kid       -- keyByID
@@ -110,6 +114,7 @@ structure World where
   jwks : List Jwk
   lib : Nat → Tok
   fixed : Bool            -- true: fixes/C22.patch applied (Step 5b present)
+  jwksTTL : Nat           -- jwksCache.ttl (ego.server.oauth.jwks.cache.ttl), seconds
 
 /-- golang-jwt Validator.Validate with WithExpirationRequired, WithIssuer, WithAudience, no leeway:
     verifyExpiresAt `now.Before(exp)`, verifyNotBefore `!now.Before(nbf)`. -/
@@ -155,6 +160,10 @@ structure St where
   cache : List (Nat × Entry)      -- caches.OAuthJWTCache, keyed on the raw token
   revoked : List Nat              -- active rows of the blacklist table
   blCache : List (Nat × Bool)     -- caches.BlacklistCache: id ↦ item.Active
+  pub : List Jwk                  -- ENVIRONMENT: the JWKS document the identity provider serves now
+  jc : List PubKey                -- jwksCache.keys
+  jcAt : Nat                      -- jwksCache.fetchedAt
+  missLast : Option Nat           -- missRefresh.last (none = the zero time.Time)
 
 inductive Res | ok (u : User) | revoked | invalid | expired | noclaim
   deriving DecidableEq, Repr
@@ -167,10 +176,69 @@ def isIDBlacklisted (s : St) (id : Nat) : St × Bool :=
     let a := s.revoked.contains id                    -- handle.Read(id) … any active row
     ({ s with blCache := (id, a) :: s.blCache }, a)   -- caches.Add(BlacklistCache, id, …)
 
-/-- ValidateJWT steps 2–7 (the cache-miss path) -/
-def validate (W : World) (s : St) (tid : Nat) : St × Res :=
+/-! ## jwks.go: the JWKS cache -/
+
+/-- minMissRefreshInterval (seconds) -/
+def missCooldown : Nat := 30
+
+/-- refreshJWKS with a reachable provider: parse the document served now, keep the usable entries.
+    `len(entries) == 0` → ErrJWKSNoKeys and the cache is left as it was. -/
+def refreshJWKS (s : St) : St × Bool :=
+  match usable s.pub with
+  | [] => (s, false)
+  | e :: es => ({ s with jc := e :: es, jcAt := s.now }, true)
+
+/-- the tail of keyByID: `if err := refreshJWKS(..); err != nil { return nil, err }`, then findKeyByID -/
+def lookupAfterRefresh (s : St) (kid : Nat) : St × Option Nat :=
+  let r := refreshJWKS s
+  if r.2 then (r.1, findKeyByID r.1.jc kid) else (r.1, none)
+
+/-- `time.Since(missRefresh.last) < minMissRefreshInterval` -/
+def coolingDown (s : St) : Bool :=
+  match s.missLast with
+  | some l => decide (s.now - l < missCooldown)
+  | none => false
+
+/-- `len(keys) > 0 && age < ttl` -/
+def jcFresh (W : World) (s : St) : Bool :=
+  !s.jc.isEmpty && decide (s.now - s.jcAt < W.jwksTTL)
+
+/-- keyByID (kid ≠ "") -/
+def keyByID (W : World) (s : St) (kid : Nat) : St × Option Nat :=
+  if jcFresh W s then
+    match findKeyByID s.jc kid with
+    | some k => (s, some k)                                   -- fast path: fresh cache, kid found
+    | none =>                                                 -- freshCacheMiss = true
+      if coolingDown s then (s, none)                         -- ErrJWKSKeyNotFound, no network
+      else lookupAfterRefresh { s with missLast := some s.now } kid
+  else lookupAfterRefresh s kid                               -- stale or empty: always refresh
+
+/-- selectVerificationKey, as the code runs it -/
+def selectKeyS (W : World) (s : St) (alg : AlgFam) (kid : Nat) : St × Option Nat :=
+  if alg = .other then (s, none)                              -- ErrJWTSigningMethod
+  else if kid ≠ 0 then keyByID W s kid
+  else
+    -- no kid: `keys := allKeys(); if len(keys) == 0 { refreshJWKS … }` — the cached keys are used whatever
+    -- their age; a failed refresh is ErrJWKSFetchNoCache (the cache stays empty)
+    let s1 := if s.jc.isEmpty then (refreshJWKS s).1 else s
+    match s1.jc with
+    | [] => (s1, none)
+    | k :: _ => (s1, some k.id)                               -- `return keys[0], nil`
+
+/-- jwt.ParseWithClaims: ParseUnverified, then the keyfunc (which may refresh the JWKS cache), then
+    Method.Verify, then the claims validator -/
+def libRun (W : World) (s : St) (t : Tok) : St × Bool :=
+  if !t.parseOK then (s, false)                               -- the keyfunc is not reached
+  else
+    let r := selectKeyS W s t.alg t.kid
+    (r.1, (match r.2 with
+           | some k => t.sigBy == some k
+           | none => false) && claimsOK W.cfg t s.now)
+
+/-- ValidateJWT steps 5–7, given the verdict `la` of parseAndValidateJWT -/
+def validateCore (W : World) (s : St) (tid : Nat) (la : Bool) : St × Res :=
   let t := W.lib tid
-  if !libAccepts W t s.now then (s, .invalid)                 -- ErrJWTValidation / ErrJWTInvalid
+  if !la then (s, .invalid)                                   -- ErrJWTValidation / ErrJWTInvalid
   else if t.exp < s.now then (s, .expired)                    -- belt-and-braces ErrJWTExpired
   else match userOf W.cfg t with
     | none => (s, .noclaim)                                   -- ErrJWTMissingClaim
@@ -181,6 +249,11 @@ def validate (W : World) (s : St) (tid : Nat) : St × Res :=
       else
         -- Step 7: caches.Add (delete old entry, insert new)
         ({ r.1 with cache := (tid, ⟨u, t.exp, t.jti⟩) :: delK r.1.cache tid }, .ok u)
+
+/-- ValidateJWT steps 2–7 (the cache-miss path) -/
+def validate (W : World) (s : St) (tid : Nat) : St × Res :=
+  let l := libRun W s (W.lib tid)
+  validateCore W l.1 tid l.2
 
 /-- ValidateJWT -/
 def present (W : World) (s : St) (tid : Nat) : St × Res :=
@@ -204,6 +277,7 @@ inductive Op
   | purge                   -- caches.Purge(OAuthJWTCache)       (admin cache flush)
   | evict (tid : Nat)       -- the cache sweeper / size limit: any JWT cache entry may vanish at any time
   | blEvict (jti : Nat)     -- the same for BlacklistCache
+  | setKeys (doc : List Jwk)  -- the identity provider replaces its JWKS document (publish / withdraw / rotate)
   deriving Repr
 
 def step (W : World) (s : St) : Op → St × Option Res
@@ -222,12 +296,16 @@ def step (W : World) (s : St) : Op → St × Option Res
   | .purge => ({ s with cache := [] }, none)
   | .evict tid => ({ s with cache := delK s.cache tid }, none)
   | .blEvict j => ({ s with blCache := delK s.blCache j }, none)
+  | .setKeys doc => ({ s with pub := doc }, none)
 
 def run (W : World) : St → List Op → St
   | s, [] => s
   | s, o :: os => run W (step W s o).1 os
 
-def init (t0 : Nat) : St := { now := t0, cache := [], revoked := [], blCache := [] }
+/-- a server that has just started: empty caches, empty blacklist, the JWKS cache pre-warmed by one
+    refreshJWKS (Initialize), no unknown-kid refresh yet -/
+def init (t0 : Nat) (jwks : List Jwk) : St :=
+  { now := t0, cache := [], revoked := [], blCache := [], pub := jwks, jc := usable jwks, jcAt := t0, missLast := none }
 
 /-! ## history-level notions the theorems are stated with (independent of `St`) -/
 
@@ -252,6 +330,41 @@ def rvStep (r : Nat → Bool) : Op → Nat → Bool
 def revokedAfter : (Nat → Bool) → List Op → Nat → Bool
   | r, [] => r
   | r, o :: os => revokedAfter (rvStep r o) os
+
+/-- does the document publish `(kid, id)` as a usable signature key? -/
+def publishes (doc : List Jwk) (kid id : Nat) : Bool :=
+  (usable doc).any (fun e => e.kid == kid && e.id == id)
+
+/-- The identity provider as an outside observer sees it (nothing of the server's state in here):
+    the clock, the document served now, for every `(kid, key)` the LAST instant so far at which the
+    provider's document published it as a usable signature key, and whether the document ever changed. -/
+structure Prov where
+  now : Nat
+  doc : List Jwk
+  last : Nat → Nat → Option Nat
+  rotated : Bool
+
+/-- everything the current document publishes is published at the current instant -/
+def Prov.mark (p : Prov) : Prov :=
+  { p with last := fun kid id => if publishes p.doc kid id then some p.now else p.last kid id }
+
+def Prov.step (p : Prov) : Op → Prov
+  | .advance dt => ({ p with now := p.now + dt }).mark
+  | .setKeys doc => ({ p with doc := doc, rotated := true }).mark
+  | _ => p
+
+def Prov.run : Prov → List Op → Prov
+  | p, [] => p
+  | p, o :: os => Prov.run (p.step o) os
+
+def Prov.init (t0 : Nat) (jwks : List Jwk) : Prov :=
+  (⟨t0, jwks, fun _ _ => none, false⟩ : Prov).mark
+
+/-- the history never changes the provider's document -/
+def noRotation : List Op → Bool
+  | [] => true
+  | .setKeys _ :: _ => false
+  | _ :: os => noRotation os
 
 /-- the decision ValidateJWT *should* compute: a pure function of the library verdict, the clock and
     the revocation store — no cache in sight. -/
